@@ -21,11 +21,34 @@ pub struct Case {
 
 /// The corpus is a pure function of (seed, tier) so that both binaries derive the same cases.
 pub fn corpus(seed: u64, thorough: bool) -> Vec<Case> {
+    corpus_sized(seed, thorough, false)
+}
+
+fn has_flag(ctx: &Ctx, name: &str) -> bool {
+    ctx.extra.iter().any(|a| a == name)
+}
+
+/// `tiny`: the corpus for the Miri tier (an interpreter four orders of magnitude slower): 16-48 sample
+/// blocks, one or two frames, small predictor orders
+pub fn corpus_sized(seed: u64, thorough: bool, tiny: bool) -> Vec<Case> {
     let mut rng = Rng::new(seed ^ 0xC18C18);
-    let n = if thorough { 400 } else { 96 };
+    let n = if tiny { 16 } else if thorough { 400 } else { 96 };
     let mut v = vec![];
     for i in 0..n {
         let mut cfg = EncCfg::random(&mut rng);
+        if tiny {
+            cfg.block_size = *rng.pick(&[16u16, 24, 48]);
+            cfg.channels = if i % 3 == 0 { 1 } else { 2 };
+            cfg.bps = *rng.pick(&[8u32, 16, 24]);
+            cfg.max_part = rng.below(3) as u32;
+            cfg.max_lpc = *rng.pick(&[None, Some(1), Some(2), Some(4)]);
+            cfg.padding = crate::api::Pad::None;
+            cfg.seek = crate::api::SeekPol::Off;
+            let frames = cfg.block_size as usize + rng.usize(0, 9);
+            let signal = *rng.pick(&[flacref::pcm::Signal::QuietPeriodic, flacref::pcm::Signal::QuietTonal, flacref::pcm::Signal::SmoothRandomWalk, flacref::pcm::Signal::StereoAnti]);
+            v.push(Case { cfg, front: *rng.pick(&FRONTS), recipe: PcmRecipe { signal, seed: rng.next(), frames } });
+            continue;
+        }
         // rayon tasks are expensive in this VM: moderately large blocks, few frames
         cfg.block_size = *rng.pick(&[256u16, 576, 1024, 1152, 4096]);
         cfg.channels = match i % 4 {
@@ -68,7 +91,7 @@ pub fn run_ref(ctx: &Ctx, rep: &mut Report) {
         rep.inconclusive.push("c18ref must be built without the rayon feature".into());
         return;
     }
-    let cases = corpus(ctx.seed, ctx.thorough);
+    let cases = corpus_sized(ctx.seed, ctx.thorough, has_flag(ctx, "--tiny"));
     let mut out = J::obj();
     for (i, c) in cases.iter().enumerate() {
         let pcm = c.recipe.make(c.cfg.channels as usize, c.cfg.bps);
@@ -111,15 +134,16 @@ pub fn run(ctx: &Ctx, rep: &mut Report) {
             return;
         }
     };
-    let cases = corpus(ctx.seed, ctx.thorough);
-    let pool_sizes: &[usize] = &[1, 2, 3, 4, 8, 16];
+    let tiny = has_flag(ctx, "--tiny");
+    let cases = corpus_sized(ctx.seed, ctx.thorough, tiny);
+    let pool_sizes: &[usize] = if tiny { &[2, 3] } else { &[1, 2, 3, 4, 8, 16] };
     let pools: Vec<rayon::ThreadPool> = pool_sizes.iter().map(|t| rayon::ThreadPoolBuilder::new().num_threads(*t).build().expect("thread pool")).collect();
     let mut signatures: HashSet<u64> = HashSet::new();
     let mut frames_total = 0u64;
     let mut frames_overlapping = 0u64;
     let mut multi_frames_total = 0u64;
     let mut threads_seen: HashSet<usize> = HashSet::new();
-    let reps = if ctx.thorough { 4 } else { 2 };
+    let reps = if tiny { 1 } else if ctx.thorough { 4 } else { 2 };
     let mut round = 0u64;
     // one full pass over the shard's cases, then more passes while the budget lasts
     loop {
@@ -266,7 +290,7 @@ pub fn run(ctx: &Ctx, rep: &mut Report) {
             }
         }
         round += 1;
-        if !ctx.time_left() {
+        if tiny || !ctx.time_left() {
             break;
         }
     }
@@ -278,5 +302,5 @@ pub fn run(ctx: &Ctx, rep: &mut Report) {
     for s in signatures.iter().take(4000) {
         rep.count("signature", format!("{s:016x}"));
     }
-    rep.sample(|| J::obj().set("cases", cases.len()).set("pool_sizes", "1,2,3,4,8,16").set("repetitions_per_pool", reps).set("passes", round).set("frames_traced", frames_total).set("overlapping", frames_overlapping).set("distinct_signatures", signatures.len()));
+    rep.sample(|| J::obj().set("cases", cases.len()).set("pool_sizes", format!("{pool_sizes:?}")).set("repetitions_per_pool", reps).set("passes", round).set("frames_traced", frames_total).set("overlapping", frames_overlapping).set("distinct_signatures", signatures.len()));
 }
